@@ -151,7 +151,13 @@ def call_maptrack(poly, qs):
     out = []
     try:
         with core.quiet():
-            res = mapOnTrack(mk_track(qs), mk_track(poly))
+            qt = mk_track(qs)
+            if (len(qs) + len(poly) + int(sum(q[0] for q in qs))) % 2 == 0:
+                # history: the projected track already carries features named like the outputs (it is the result of an earlier
+                # projection on another line, whose values it still holds)
+                qt.createAnalyticalFeature("dist", [99.0 + k for k in range(len(qs))])
+                qt.createAnalyticalFeature("edge", [7] * len(qs))
+            res = mapOnTrack(qt, mk_track(poly))
             n = res.size()
             rows = [(res["dist", k], res[k].position.getX(), res[k].position.getY(), res["edge", k]) for k in range(n)]
         if n != len(qs):
